@@ -25,7 +25,7 @@ RULE = ("cases: admissible trees (every scheduler without timeout owns a non-for
         "distinct scenario digest")
 ASSUMPTIONS = RT_ASSUMPTIONS
 
-PROFILE = S.GENERAL.but(p_block=6, p_rerun=8, allow_empty=False, p_raise=35, p_critical=25, p_forever=18,
+PROFILE = S.GENERAL.but(p_block=15, p_rerun=8, allow_empty=False, p_raise=35, p_critical=25, p_forever=18,
                         windows=((None, 3), (1, 4), (2, 3), (3, 2), (4, 1)),
                         p_edge=40, p_wild=40)
 
